@@ -164,6 +164,17 @@ Proof.
   - eapply after_prepare_queue; eauto.
 Qed.
 
+Lemma queue_submit s t x : In x (queue (submit s t)) -> In x (queue s) \/ x = t.
+Proof.
+  unfold submit. destruct (session_shut s); [rewrite q_fw; auto|].
+  cbn [queue push_task]. intros Hin. apply in_app_iff in Hin. destruct Hin as [Hin|[<-|[]]]; auto.
+Qed.
+
+Lemma queue_bump s dcl t x : In x (queue (bump_retry s dcl t)) -> In x (queue s) \/ x = t.
+Proof.
+  unfold bump_retry. destruct (is_some (fin_exc s)); [cbn; auto|]. intros Hin. apply queue_submit in Hin. exact Hin.
+Qed.
+
 Definition retry_decision (reuse : bool) : decision := if reuse then DRetry else DNextHost.
 
 (* what a response to a query attempt at host h may enqueue *)
@@ -181,19 +192,17 @@ Proof.
   intros H Hin. destruct r; cbn [set_result] in H; try (inversion H; subst; qnorm; left; exact Hin).
   - destruct (pol c (nconsult s) k tag (retries s) (if request_error_kind k then msg_cl s else None)) as [d dcl] eqn:P.
     unfold handle_decision in H. inversion H; subst; qnorm; clear H.
-    destruct d; cbn [queue set_err] in Hin; qnorm; cbn [queue set_err set_exc set_res bump_retry tick_consult fin_exc] in Hin; auto.
-    + destruct (is_some (fin_exc s)); [left; exact Hin|].
-      apply in_app_iff in Hin. destruct Hin as [Hin|[<-|[]]]; auto. right. cbn.
+    destruct d; cbn [queue set_err] in Hin; qnorm; auto.
+    + apply queue_bump in Hin. destruct Hin as [Hin| ->]; [left; exact Hin|]. right. cbn.
       split; [reflexivity|]. do 6 eexists. split; [reflexivity|]. left. reflexivity.
-    + destruct (is_some (fin_exc s)); [left; exact Hin|].
-      apply in_app_iff in Hin. destruct Hin as [Hin|[<-|[]]]; auto. right. cbn.
+    + apply queue_bump in Hin. destruct Hin as [Hin| ->]; [left; exact Hin|]. right. cbn.
       split; [reflexivity|]. do 6 eexists. split; [reflexivity|]. left. reflexivity.
   - unfold unprepared in H.
     assert (G : forall ps, unprep_go c s h ps = (s', ev) -> In t (queue s) \/ enqueued_by h (RUnprepared id tag) ev t).
     { intros [[pid qs] ks0] G. unfold unprep_go in G.
       destruct (negb (uses_ks c) && is_some ks0 && negb (opt_eqb (conn_ks s) ks0)); inversion G; subst; qnorm.
       - left. exact Hin.
-      - cbn [queue push_task] in Hin. apply in_app_iff in Hin. destruct Hin as [Hin|[<-|[]]]; auto.
+      - apply queue_submit in Hin. destruct Hin as [Hin| ->]; auto.
         right. cbn. split; [reflexivity|]. eauto. }
     destruct (fut_ps c) as [[[pid pqs] pks]|].
     + destruct (negb (pid =? id)); [inversion H; subst; qnorm; left; exact Hin|].
@@ -211,8 +220,8 @@ Proof.
   - destruct (nth_error (attempts s) i) as [a|] eqn:N; [|inversion H; subst; qnorm; left; exact Hin].
     destruct (a_done a) eqn:D; [inversion H; subst; qnorm; left; exact Hin|].
     destruct (a_prep a) eqn:Pp.
-    + inversion H; subst; qnorm. cbn [queue push_task set_attempts] in Hin. apply in_app_iff in Hin.
-      destruct Hin as [Hin|[<-|[]]]; auto. right. exists i, r, a. rewrite Pp. auto.
+    + inversion H; subst; qnorm. apply queue_submit in Hin. cbn [queue set_attempts] in Hin.
+      destruct Hin as [Hin| ->]; auto. right. exists i, r, a. rewrite Pp. auto.
     + destruct (Nat.eqb (a_page a) (page_no s)); [|inversion H; subst; left; exact Hin].
       destruct (set_result_queue _ _ _ _ _ _ _ H Hin) as [G|G]; [left; exact G|].
       right. exists i, r, a. rewrite Pp. auto.
